@@ -12,10 +12,10 @@ Vocabulary: `l ~ l'` permutation; `FormPermuted f f'` fields reordered and the v
 `DistinctKeys` the `var`s of the form are pairwise different (XEP-0004 §3.2); `NoChar c i` character `c` occurs in no
 component; `NoSlash i` no `/` in a category, type or language tag; `canon i` the content as the hash sees it (sorted
 identities, sorted distinct features, FORM_TYPE value and per key the appended values); `XepForm` unique `var`s and a
-single-valued string FORM_TYPE; `NoCR` no form value contains a carriage return.
+single-valued string FORM_TYPE.
 
-Form values are opaque strings: the wire view (`Value.wire`) is one `<value/>` per list element whose text is the element
-as a conforming XML parser reads it; the only character such a reader changes in element text is CR (XML 1.0 §2.11).
+Form values are opaque strings: the wire view (`Value.wire`) is one `<value/>` per list element whose text is the element;
+a conforming XML parser reads it back unchanged (the writer escapes markup characters and CR; the reader keeps LF, TAB, blanks).
 
 Scope: the property is about the hash this client GENERATES and advertises versus what it ANSWERS.  The verification
 direction (checking the `ver` other entities advertise against their disco#info, XEP-0115 §5.4) is not part of it: qxmpp
@@ -27,8 +27,8 @@ State of the tree: repo commits 0beac74 (sorting by UTF-8 octets), eee8133 (`cap
 03b8892 (form field values hashed exactly as written) and 032336b (caps recomputed wherever the stored presence is
 emitted or handed out) are in and the model follows them; the former witnesses stay in the harness corpus and as examples
 below.  Also in: "caps hash includes an empty but non-null form value, as the form is written" (0e1114e), after
-`QXmppDataForm::toXml` started to write such a value as `<value/>`.  Open: a CR inside a form value is written literally
-and read back as LF by a conforming peer (`C20_defect_cr_in_form_value`).
+`QXmppDataForm::toXml` started to write such a value as `<value/>`, and "a carriage return in element text is written as a
+character reference" (6d0fec7).  No defect theorem is left.
 -/
 namespace Qx.C20
 open List
@@ -168,23 +168,23 @@ theorem xep_string_ambiguous_across_sections :
 /-! ## the computed string is the XEP-0115 §5.1 string -/
 
 /-- **The C++ string is the XEP string of what a peer reads from the wire** for every info set whose form is in the
-XEP's domain (unique `var`s, a string FORM_TYPE with one value) and whose form values contain no CR — any other characters
-(line feeds, tabs, blanks only, `<`, `&`, quotes, U+2028, any length), any number of identities, features, fields, values,
-any field kinds (strings incl. the empty one, lists, booleans, value-less fields).  No condition on identities, features
-or keys (they travel in attributes, where the writer escapes CR). -/
-theorem code_eq_spec (i : Info) (hx : XepForm i.form) (hc : NoCR i.form) : verStringCode i = verStringSpec i := by
+XEP's domain (unique `var`s, a string FORM_TYPE with one value) — no condition on characters (line feeds, carriage returns,
+tabs, blanks only, `<`, `&`, quotes, U+2028, any length), any number of identities, features, fields, values, any field
+kinds (strings incl. the empty one, lists, booleans, value-less fields). -/
+theorem code_eq_spec (i : Info) (hx : XepForm i.form) : verStringCode i = verStringSpec i := by
   simp only [verStringCode, verStringSpec, sortedIdentitiesCode, sortedFeaturesCode]
-  rw [formStr_agree hx hc]
+  rw [formStr_agree hx]
 
 /-- without a form nothing is assumed at all -/
 theorem code_eq_spec_without_form (i : Info) (h : i.form = none) : verStringCode i = verStringSpec i :=
-  code_eq_spec i (by rw [h]; trivial) (by rw [h]; trivial)
+  code_eq_spec i (by rw [h]; trivial)
 
-/-- **The wire view is element-wise**: a multi-valued field puts one `<value/>` per list element on the wire and nothing
-else; a peer reads each element with its line ends normalised, and unchanged when it contains no CR. -/
-theorem wire_view_is_one_value_per_element (vs : List Str) :
-    (Value.list vs).wire = vs.map xmlLineEnds ∧ ((∀ s ∈ vs, '\r' ∉ s) → (Value.list vs).wire = vs) :=
-  ⟨rfl, fun h => wire_eq_hashed (v := .list vs) h⟩
+/-- **The wire view is element-wise**: a multi-valued field puts exactly one `<value/>` per list element on the wire, its
+text the element (never split, joined or trimmed), a single-valued field its string unless null, a boolean `1`/`0`. -/
+theorem wire_view_is_one_value_per_element (vs : List Str) (s : Str) (b : Bool) :
+    (Value.list vs).wire = vs ∧ (Value.text s).wire = [s] ∧ Value.null.wire = [] ∧
+    (Value.bool b).wire = [[if b then '1' else '0']] := by
+  cases b <;> exact ⟨rfl, rfl, rfl, rfl⟩
 
 /-- **The collation used is the XEP's, and it is code point order**: i;octet on the UTF-8 encodings compares the
 sequences of code points (so e.g. U+FF5E sorts before U+1F600, unlike in UTF-16). -/
@@ -229,26 +229,8 @@ example : verStringCode witnessEmptyValue = "urn:t<b<<".toList ∧ verStringSpec
 def witnessCR : Info :=
   { ids := [], feats := [], form := some [⟨formTypeKey, .text "urn:t".toList⟩, ⟨['b'], .list [['x', '\r', 'y']]⟩] }
 
-theorem witnessCR_xepForm : XepForm witnessCR.form := by
-  refine ⟨by decide, ?_⟩
-  intro f hf hk
-  simp only [mem_cons, not_mem_nil, or_false] at hf
-  rcases hf with rfl | rfl
-  · exact ⟨⟨_, rfl⟩, fun b h => by cases h⟩
-  · exact absurd hk (by decide)
-
-/-- **Defect (CR in a form value).** `QXmlStreamWriter` writes a carriage return in element text literally and every
-conforming XML parser reads it back as a line feed (XML 1.0 §2.11), so the XEP-0115 hash a peer computes from the answer is
-taken over `x LF y` while `verificationString()` hashed `x CR y`: `code_eq_spec` is false without `NoCR`
-(key `C20:cr-in-form-value-read-as-lf`). -/
-theorem C20_defect_cr_in_form_value :
-    (¬ ∀ i : Info, XepForm i.form → verStringCode i = verStringSpec i) ∧
-    verStringCode witnessCR = "urn:t<b<x\ry<".toList ∧ verStringSpec witnessCR = "urn:t<b<x\ny<".toList := by
-  refine ⟨?_, by decide, by decide⟩
-  intro h
-  have x1 := h witnessCR witnessCR_xepForm
-  revert x1
-  decide
+/-- the former CR witness (fixed by 6d0fec7): the CR is written as `&#13;`, read back as CR, and hashed as CR -/
+example : verStringCode witnessCR = "urn:t<b<x\ry<".toList ∧ verStringSpec witnessCR = "urn:t<b<x\ry<".toList := by decide
 
 /-! ## advertised = answered -/
 
@@ -260,11 +242,11 @@ theorem advertised_eq_answered {β : Type} (H : Str → β) (c : ClientCfg) (v :
   simp [answeredInfo, advertisedVer, isPrefixOf_self_append]
 
 /-- **…and it is the XEP-0115 hash of that answer** (what a verifying peer recomputes) whenever the client's info form
-is in the XEP's domain without CR in its values (always when no info form is set). -/
+is in the XEP's domain (always when no info form is set). -/
 theorem advertised_eq_xep_hash_of_answer {β : Type} (H : Str → β) (c : ClientCfg) (v : Str)
-    (hx : XepForm c.infoForm) (hc : NoCR c.infoForm) :
+    (hx : XepForm c.infoForm) :
     (answeredInfo c (c.node ++ '#' :: v)).map (fun i => H (verStringSpec i)) = some (advertisedVer H c) := by
-  have e := code_eq_spec (capabilities c) hx hc
+  have e := code_eq_spec (capabilities c) hx
   simp [answeredInfo, advertisedVer, isPrefixOf_self_append, ver, e]
 
 /-! ### every emission site over any history -/
@@ -330,16 +312,16 @@ theorem every_emitted_presence_advertises_the_answer_of_that_moment {β : Type} 
   fresh_caps_are_answered H s'.cfg n v (every_emitted_presence_has_fresh_caps H s ops s' _ hm).symm
 
 /-- **…and the XEP-0115 hash a peer computes from the wire**: if the info form in force at the emission is in the XEP's
-domain and has no CR in its values, the `ver` of every presence emitted anywhere in any history equals the hash, per XEP-0115
-§5.1 on the wire view, of the info set answered at that moment. -/
+domain (no condition on characters), the `ver` of every presence emitted anywhere in any history equals the hash, per
+XEP-0115 §5.1 on the wire view, of the info set answered at that moment. -/
 theorem every_emitted_presence_advertises_the_wire_hash_of_the_answer {β : Type} (H : Str → β) (s : ClientSt β)
     (ops : List ClientOp) (s' : ClientSt β) (n : Str) (v : β)
     (hm : (s', ClientOut.presence (some (n, v))) ∈ (clientRun H s ops).2)
-    (hx : XepForm s'.cfg.infoForm) (hc : NoCR s'.cfg.infoForm) (x : Str) :
+    (hx : XepForm s'.cfg.infoForm) (x : Str) :
     (answeredInfo s'.cfg (n ++ '#' :: x)).map (fun i => H (verStringSpec i)) = some v := by
   have h := every_emitted_presence_advertises_the_answer_of_that_moment H s ops s' n v hm
   rw [h.1, h.2.1]
-  exact advertised_eq_xep_hash_of_answer H s'.cfg x hx hc
+  exact advertised_eq_xep_hash_of_answer H s'.cfg x hx
 
 /-- two configurations with different hashes (for the examples below; `H` = identity) -/
 def cfgOld : ClientCfg :=
@@ -397,8 +379,8 @@ example : FormPermuted infoA.form infoB.form :=
   ⟨[formA[2], formA[1], formA[0]], by decide,
    .cons ⟨rfl, rfl⟩ (.cons ⟨rfl, Perm.swap _ _ _⟩ (.cons ⟨rfl, rfl⟩ .nil))⟩
 example : verStringCode infoA = verStringCode infoB := by decide +kernel
-example : NoChar '<' infoA ∧ NoSlash infoA ∧ NoCR infoA.form ∧ XepForm infoA.form := by
-  refine ⟨by decide, by decide, by decide, ⟨by decide, ?_⟩⟩
+example : NoChar '<' infoA ∧ NoSlash infoA ∧ XepForm infoA.form := by
+  refine ⟨by decide, by decide, ⟨by decide, ?_⟩⟩
   intro f hf hk
   simp only [formA, mem_cons, not_mem_nil, or_false] at hf
   rcases hf with rfl | rfl | rfl
